@@ -206,6 +206,21 @@ def unfold(r, ids=None, levels=1):
     return r
 
 
+def unfold_dependent(r, atom_id, budget=None):
+    """unfold (repeatedly) only the definition atoms whose definitions depend on the given free symbol"""
+    budget = budget or 20 * UNFOLD_BUDGET
+    guard = 0
+    while guard < 40:
+        guard += 1
+        ds = [k for k in def_atoms(r) if atom_id in TABLE.atoms[k].args[0].atoms(deep=True)]
+        if not ds:
+            return r
+        r = unfold(r, ds)
+        if size(r) > budget:
+            return None
+    return None
+
+
 def unfold_all(r, budget=None):
     budget = budget or UNFOLD_BUDGET
     guard = 0
@@ -276,6 +291,59 @@ def _difference(a, b, budget):
     if len(a.num.t) * len(b.den.t) + len(b.num.t) * len(a.den.t) > 6 * budget:
         return None
     return reduce_poly(a.num * b.den - b.num * a.den)
+
+
+def _depends(atom_id, t, _memo):
+    if atom_id == t:
+        return True
+    if atom_id in _memo:
+        return _memo[atom_id]
+    a = TABLE.atoms[atom_id]
+    res = False
+    if a.kind == 'fn':
+        for x in a.args:
+            if isinstance(x, Rat) and t in x.atoms(deep=True):
+                res = True
+                break
+    _memo[atom_id] = res
+    return res
+
+
+def separable_nonzero(p):
+    """sufficient condition for a polynomial p over generators (some of them definition atoms) to be a non-zero function
+    without unfolding: there is a free symbol t on which no definition atom of p depends; p is written as
+    sum_k c_k * m_k with m_k distinct monomials in t-dependent generators and c_k polynomials in t-free ones; distinct m_k are
+    linearly independent over the t-free functions, so p == 0 would need every c_k == 0, and a c_k that is a single
+    non-zero term (a product of non-zero generators) or that contains no definition atom is not zero."""
+    if not p.t:
+        return False
+    syms = [k for k in p.atoms() if TABLE.atoms[k].kind == 'sym']
+    defs = [k for k in p.atoms() if TABLE.atoms[k].kind == 'fn' and TABLE.atoms[k].name == 'def']
+    for t in syms:
+        memo = {}
+        if any(_depends(k, t, memo) for k in defs):
+            continue
+        groups = {}
+        for (a, e), c in p.t.items():
+            dep = tuple((k, x) for k, x in a if _depends(k, t, memo))
+            free = tuple((k, x) for k, x in a if not _depends(k, t, memo))
+            edep = any(_depends(k, t, memo) for ak, ec in e for k, x in ak)
+            key = (dep, e if edep else NOEXP)
+            ck = (free, NOEXP if edep else e)
+            g = groups.setdefault(key, {})
+            g[ck] = g.get(ck, ZERO) + c
+        if len(groups) < 1:
+            continue
+        for key, g in groups.items():
+            g = dict((k, v) for k, v in g.items() if v)
+            if not g:
+                continue
+            if len(g) == 1:
+                return True
+            has_def = any(TABLE.atoms[k].kind == 'fn' and TABLE.atoms[k].name == 'def' for (fa, fe) in g for k, x in fa)
+            if not has_def:
+                return True
+    return False
 
 
 def _top_atoms(r):
@@ -370,6 +438,8 @@ def decide_equal(a, b, budget=None, _why=None):
                 oneside = [q for q in ds if (q in da) != (q in db)]
                 k = min(oneside or ds, key=lambda q: size(TABLE.atoms[q].args[0]))
                 if size(d) * size(TABLE.atoms[k].args[0]) > 3 * budget:
+                    if separable_nonzero(d.num):
+                        return 'different'
                     return 'unknown'
                 a = unfold(a, [k])
                 b = unfold(b, [k])
@@ -408,6 +478,12 @@ def decide_equal(a, b, budget=None, _why=None):
                 continue
             if unknown_pair:
                 return 'unknown'
+            # a difference that involves an unmodelled external function on one side only is a modelling gap, not a finding
+            ta, tb = _top_atoms(a), _top_atoms(b)
+            for k in (ta ^ tb):
+                at = TABLE.atoms[k]
+                if at.kind == 'unk' or (at.kind == 'fn' and at.name.startswith(('ext:', 'array', 'strop', 'fstring'))):
+                    return 'unknown'
             if _why is not None and not _why:
                 _why.append((a, b))
             return 'different'
@@ -1241,6 +1317,8 @@ def diff(r, atom_id):
             return C(0)
         u = a.args[0]
         du = diff(u, atom_id)
+        if a.name == 'def':
+            return du
         if a.name == 'sqrt':
             return du / (C(2) * Rat.atom(a))
         if a.name == 'atan':
